@@ -1,7 +1,9 @@
 package interp
 
 import (
+	"go/token"
 	"go/types"
+	"math"
 	"reflect"
 	"sort"
 	"strings"
@@ -498,4 +500,114 @@ func init() {
 		*(iv.V.R.(*Value)) = res
 		return nilErr, true
 	}
+}
+
+// ---- integral float64 arithmetic (just enough for comparisons through float64) ----------------------
+//
+// floatI is float64(x) for a signed integer x of at most 64 bits: sign and magnitude, the magnitude being
+// |x| rounded to 53 bits (at most 2^63, so it fits an unsigned 64-bit vector). floatSub is the IEEE
+// difference of two such values, kept unevaluated: the only thing modelled about it is its comparison
+// with zero, which for finite operands is exactly the comparison of the operands (correct rounding
+// never changes the sign of a difference and yields zero only for equal operands).
+type floatI struct {
+	neg *smt.Term // Bool
+	mag *smt.Term // BV64 unsigned
+}
+type floatSub struct{ a, b *floatI }
+
+func (in *Interp) floatOfInt(x Value, w uint8, signed bool) Value {
+	c := in.Ctx
+	if x.R == nil {
+		var v int64
+		if signed {
+			v = sextW(x.N, w)
+		} else {
+			if x.N >= 1<<63 {
+				return Value{K: KOpaque, R: poison("float64 of an unsigned value >= 2^63")}
+			}
+			v = int64(x.N)
+		}
+		return in.floatConst(float64(v))
+	}
+	t := x.R.(*smt.Term)
+	if w < 64 {
+		if signed {
+			t = c.SExt(t, 64)
+		} else {
+			t = c.ZExt(t, 64)
+		}
+		signed = true
+	}
+	if !signed {
+		return Value{K: KOpaque, R: poison("float64 of a symbolic uint64")}
+	}
+	neg := c.Cmp(smt.OpSLt, t, c.BV(0, 64))
+	a := mkSymInt(c.Ite(neg, c.Un(smt.OpNeg, t), t)) // |x| as unsigned; 2^63 for the minimum
+	m := in.round53(a, false)
+	return Value{K: KOpaque, R: &floatI{neg: neg, mag: m.Term(c)}}
+}
+
+func (in *Interp) floatConst(f float64) Value {
+	c := in.Ctx
+	if f != math.Trunc(f) || f > 9223372036854775808.0 || f < -9223372036854775808.0 {
+		return Value{K: KOpaque, R: poison("non-integral float const")}
+	}
+	neg := f < 0
+	if neg {
+		f = -f
+	}
+	return Value{K: KOpaque, R: &floatI{neg: c.Bool(neg), mag: c.BV(uint64(f), 64)}}
+}
+
+func (in *Interp) floatLtEq(a, b *floatI) (lt, eq *smt.Term) {
+	c := in.Ctx
+	az := c.Cmp(smt.OpEq, a.mag, c.BV(0, 64))
+	bz := c.Cmp(smt.OpEq, b.mag, c.BV(0, 64))
+	an := c.And(a.neg, c.Not(az))
+	bn := c.And(b.neg, c.Not(bz))
+	eq = c.And(c.Cmp(smt.OpEq, a.mag, b.mag), c.Cmp(smt.OpEq, an, bn))
+	lt = c.Or(c.And(an, c.Not(bn)),
+		c.Or(c.And(c.And(c.Not(an), c.Not(bn)), c.Cmp(smt.OpULt, a.mag, b.mag)),
+			c.And(c.And(an, bn), c.Cmp(smt.OpULt, b.mag, a.mag))))
+	return
+}
+
+// floatBinop handles the float operations that are modelled; ok=false for everything else.
+func (in *Interp) floatBinop(op token.Token, x, y Value) (Value, bool) {
+	xi, xIsI := x.R.(*floatI)
+	yi, yIsI := y.R.(*floatI)
+	xs, xIsS := x.R.(*floatSub)
+	ys, yIsS := y.R.(*floatSub)
+	c := in.Ctx
+	isZero := func(f *floatI) bool { return f.mag.IsConst() && f.mag.Val == 0 }
+	var a, b *floatI
+	switch {
+	case xIsI && yIsI:
+		if op == token.SUB {
+			return Value{K: KOpaque, R: &floatSub{xi, yi}}, true
+		}
+		a, b = xi, yi
+	case xIsS && yIsI && isZero(yi):
+		a, b = xs.a, xs.b // (a-b) ? 0  <=>  a ? b
+	case xIsI && isZero(xi) && yIsS:
+		a, b = ys.b, ys.a // 0 ? (a-b)  <=>  b ? a
+	default:
+		return Value{}, false
+	}
+	lt, eq := in.floatLtEq(a, b)
+	switch op {
+	case token.EQL:
+		return mkSymBool(eq), true
+	case token.NEQ:
+		return mkSymBool(c.Not(eq)), true
+	case token.LSS:
+		return mkSymBool(lt), true
+	case token.LEQ:
+		return mkSymBool(c.Or(lt, eq)), true
+	case token.GTR:
+		return mkSymBool(c.Not(c.Or(lt, eq))), true
+	case token.GEQ:
+		return mkSymBool(c.Not(lt)), true
+	}
+	return Value{}, false
 }
